@@ -95,6 +95,15 @@ def generate(rng, tier):
         bs.append((len(bs), (F(0), F(0), F(1), F(1))))
         for q in [bs[0][1], bs[-1][1], (F(-H), F(-H), F(H), F(H)), bs[1][1]]:
             cases.append({"boxes": bs, "q": q, "exact": False, "family": "float/huge"})
+    # several bit-identical point boxes (dots plotted on top of each other) at coordinates whose n-fold mean does not round back to the
+    # coordinate itself (0.9, 1.8, 3.1, 3.6 for three dots; 0.1, 0.2, 1.0 for six or seven), alone and among ordinary strokes
+    for _ in range(max(6, nl // 10)):
+        x = rng.choice([0.9, 1.8, 3.1, 3.6, 0.1, 0.2, 1.0, 0.3, 2.7]); y = rng.choice([0.9, 1.8, 3.1, 3.6, 0.1, 0.2, 1.0, 5.3])
+        k = rng.choice([3, 3, 6, 7, 5, 9]); bs = [(i, (F(x), F(y), F(x), F(y))) for i in range(k)]
+        if rng.random() < 0.6: bs += [(k, (F(0), F(0), F(5), F(0))), (k + 1, (F(2), F(1), F(2), F(4)))]
+        rng.shuffle(bs)
+        for q in [(F(x), F(y), F(x), F(y)), (F(0), F(0), F(10), F(10)), (F(x) - 1, F(y) - 1, F(x), F(y))]:
+            cases.append({"boxes": bs, "q": q, "exact": False, "family": "float/identical-point-boxes"})
     # an index is built once and queried many times: 1-4 earlier queries on the same index (whole extent, halves and quadrants of the
     # extent, single boxes; the caller keeps and edits the sets it was given) must not change the answer to the judged query
     for _ in range(nl):
